@@ -45,12 +45,24 @@ func TestVerifDriver(t *testing.T) {
 	mk := func(res func(bool) string, outlierOn bool, opts ...Option) func(bool, string) bool {
 		mw := SentinelClientMiddleware(opts...)
 		return func(blocked bool, oc string) bool {
-			h := mw(func(ctx context.Context, req interface{}) (interface{}, error) { return "rsp", VHit(oc) })
+			h := mw(func(ctx context.Context, req interface{}) (interface{}, error) {
+				if err := VHit(oc); err != nil && ctx.Err() != nil {
+					return nil, ctx.Err()
+				} else {
+					return "rsp", err
+				}
+			})
 			tr := vTransport{endpoint: "discovery:///unused", operation: res(blocked)}
 			if outlierOn {
 				tr = vTransport{endpoint: "discovery:///" + res(blocked), operation: "/verif.Outlier/Call"}
 			}
-			ctx := transport.NewClientContext(context.Background(), tr)
+			root := context.Background()
+			if oc == "err@ctx" { // the caller's context is already cancelled: kratos' transport gives up with the context's error
+				cctx, cancel := context.WithCancel(root)
+				cancel()
+				root = cctx
+			}
+			ctx := transport.NewClientContext(root, tr)
 			ctx = metadata.NewClientContext(ctx, metadata.New())
 			// the peer is what kratos' selector filter leaves in the context once a node is picked
 			ctx = selector.NewPeerContext(ctx, &selector.Peer{Node: node})
@@ -89,16 +101,16 @@ func TestVerifDriver(t *testing.T) {
 	}
 
 	VRun(t, "kratos", []VCase{
-		{Ep: "SentinelClientMiddleware", Side: "client", Variant: "default", Wraps: true, Errsig: true, Fb: "default", Res: op("d"), Send: mk(op("d"), false)},
-		{Ep: "SentinelClientMiddleware", Side: "client", Variant: "extractor", Options: []string{"WithResourceExtract"}, Wraps: true, Errsig: true, Fb: "default",
+		{Ep: "SentinelClientMiddleware", Side: "client", Layers: []string{"err@ctx"}, Variant: "default", Wraps: true, Errsig: true, Fb: "default", Res: op("d"), Send: mk(op("d"), false)},
+		{Ep: "SentinelClientMiddleware", Side: "client", Layers: []string{"err@ctx"}, Variant: "extractor", Options: []string{"WithResourceExtract"}, Wraps: true, Errsig: true, Fb: "default",
 			Res: custom("e"), Send: mkCustom("e", extract)},
-		{Ep: "SentinelClientMiddleware", Side: "client", Variant: "fallback", Options: []string{"WithBlockFallback"}, Wraps: true, Errsig: true, Fb: "custom",
+		{Ep: "SentinelClientMiddleware", Side: "client", Layers: []string{"err@ctx"}, Variant: "fallback", Options: []string{"WithBlockFallback"}, Wraps: true, Errsig: true, Fb: "custom",
 			Res: op("f"), Send: mk(op("f"), false, fallback)},
-		{Ep: "SentinelClientMiddleware", Side: "client", Variant: "extractor+fallback+outlier-off", Options: []string{"WithResourceExtract", "WithBlockFallback", "WithEnableOutlier"},
+		{Ep: "SentinelClientMiddleware", Side: "client", Layers: []string{"err@ctx"}, Variant: "extractor+fallback+outlier-off", Options: []string{"WithResourceExtract", "WithBlockFallback", "WithEnableOutlier"},
 			Wraps: true, Errsig: true, Fb: "custom", Res: custom("ef"), Send: mkCustom("ef", extract, fallback, off)},
-		{Ep: "SentinelClientMiddleware", Side: "client", Variant: "outlier", Options: []string{"WithEnableOutlier"}, Wraps: true, Errsig: true, Fb: "default", Private: true,
+		{Ep: "SentinelClientMiddleware", Side: "client", Layers: []string{"err@ctx"}, Variant: "outlier", Options: []string{"WithEnableOutlier"}, Wraps: true, Errsig: true, Fb: "default", Private: true,
 			Res: svc("outlier"), Send: mk(svc("outlier"), true, on)},
-		{Ep: "SentinelClientMiddleware", Side: "client", Variant: "outlier+fallback", Options: []string{"WithEnableOutlier", "WithBlockFallback"}, Wraps: true, Errsig: true,
+		{Ep: "SentinelClientMiddleware", Side: "client", Layers: []string{"err@ctx"}, Variant: "outlier+fallback", Options: []string{"WithEnableOutlier", "WithBlockFallback"}, Wraps: true, Errsig: true,
 			Fb: "custom", Private: true, Res: svc("outlier+fallback"), Send: mk(svc("outlier+fallback"), true, on, fallback)},
 	})
 }
